@@ -13,6 +13,15 @@ theorem pr_inj {m : Nat} (hp : IsPrime m) (w : Str) {i j : Nat} (hi : i < m) (hj
   have hs := stepValue_range w m hp.1
   exact probe_injective hp (by omega) hs.2 hi hj h
 
+/-- What the open-addressing arguments need of the table size: the first `m` probes of any key
+are pairwise distinct (so they visit every cell). True for a prime size, and for size 1. -/
+def ProbeOK (m : Nat) : Prop := 0 < m ∧ ∀ (w : Str) (i j : Nat), i < m → j < m → pr m w i = pr m w j → i = j
+
+theorem probeOK_of_prime {m : Nat} (hp : IsPrime m) : ProbeOK m :=
+  ⟨by have := hp.1; omega, fun w _ _ hi hj h => pr_inj hp w hi hj h⟩
+
+theorem probeOK_one : ProbeOK 1 := ⟨by omega, fun _ i j hi hj _ => by omega⟩
+
 /-- Occupied cells. -/
 def occ (t : Table) : Nat := (t.filter Option.isSome).length
 
@@ -51,11 +60,11 @@ theorem insertSlot_eq (t : Table) (w : Str) :
 
 /-- **Insertion finds a free cell** whenever the table is not full (prime size):
 the probe sequence covers every cell. It returns the first free probe. -/
-theorem insertSlot_spec {m : Nat} (hp : IsPrime m) (t : Table) (hlen : t.length = m) (w : Str)
+theorem insertSlot_spec {m : Nat} (hp : ProbeOK m) (t : Table) (hlen : t.length = m) (w : Str)
     (hfree : occ t < m) :
     ∃ i, i < m ∧ insertSlot t w = some (pr m w i) ∧ t[pr m w i]? = some none ∧
       ∀ j, j < i → ∃ k, t[pr m w j]? = some (some k) := by
-  have hm : 0 < m := by have := hp.1; omega
+  have hm : 0 < m := hp.1
   -- the probes cover all cells
   have hcover : ∀ s, s < m → s ∈ (List.range m).map (pr m w) := by
     apply pigeonhole
@@ -68,7 +77,7 @@ theorem insertSlot_spec {m : Nat} (hp : IsPrime m) (t : Table) (hlen : t.length 
       have hnr : (List.range m).Pairwise (fun a b => a ≠ b) := List.nodup_range
       apply List.Pairwise.imp_of_mem _ hnr
       intro a b ha hb hab heq
-      exact hab (pr_inj hp w (List.mem_range.mp ha) (List.mem_range.mp hb) heq)
+      exact hab (hp.2 w a b (List.mem_range.mp ha) (List.mem_range.mp hb) heq)
   obtain ⟨s, hs⟩ := exists_free t (by rw [hlen]; exact hfree)
   have hsm : s < m := by
     rcases Nat.lt_or_ge s t.length with h | h
